@@ -226,3 +226,29 @@ func TypeCaseEntry(fn *ssa.Function, typeName string) (entries []*ssa.BasicBlock
 	}
 	return
 }
+
+// TypeCaseEntryOf is TypeCaseEntry for an arbitrary asserted type given by
+// its short name (e.g. "*dataflow.ParamNode").
+func TypeCaseEntryOf(fn *ssa.Function, shortType string) (entries []*ssa.BasicBlock, ifBlocks []*ssa.BasicBlock) {
+	for _, b := range fn.Blocks {
+		if len(b.Instrs) == 0 {
+			continue
+		}
+		iff, ok := b.Instrs[len(b.Instrs)-1].(*ssa.If)
+		if !ok {
+			continue
+		}
+		ex, ok := iff.Cond.(*ssa.Extract)
+		if !ok || ex.Index != 1 {
+			continue
+		}
+		ta, ok := ex.Tuple.(*ssa.TypeAssert)
+		if !ok || ShortType(ta.AssertedType) != shortType {
+			continue
+		}
+		entries = append(entries, b.Succs[0])
+		ifBlocks = append(ifBlocks, b)
+	}
+	return
+}
+
